@@ -75,7 +75,7 @@ type observed struct {
 func init() {
 	vlib.Register(&vlib.Check{
 		ID: "C21", Engine: "E2",
-		Rule: "finite space, enumerated completely: helper = /bin/sh that exits with every code 0..255 or kills itself with every terminating signal (1..31 except CHLD CONT STOP TSTP TTIN TTOU URG WINCH; each helper is first run directly by the harness to confirm it really ends that way) x form {alone, `h; exitnum`, `h && out next`, `h || out alt`, `try { h; out after }`, `trypipe { h; out after }`} x launcher {sh, /bin/sh, exec sh (thorough only: the last two)} x seam {in-process fork, `murex -c` with a binary built from the working tree by the check: `alone` one murex process per case (its exit status is the observation), the other forms of a worker batched into one murex process and judged on stdout (quick: codes 0 1 2 127 128 255 and signals 1 2 3 6 9 11 13 15; thorough: everything)}; oracle from the statement: normal exit => exit number == code; signal death => exit number != 0; `&&` continues / `||` alternative / rest of try block run exactly according to failed = (code != 0 or signal); non-trivial = helper does not exit 0 (a status has to be propagated)",
+		Rule: "finite space, enumerated completely: helper = /bin/sh that exits with every code 0..255 or kills itself with every terminating signal (1..31 except CHLD CONT STOP TSTP TTIN TTOU URG WINCH; each helper is first run directly by the harness to confirm it really ends that way) x form {alone, `h; exitnum`, `h && out next`, `h || out alt`, `try { h; out after }`, `trypipe { h; out after }`} x launcher {sh; thorough, in-process seam only, also /bin/sh and exec sh} x seam {in-process fork, `murex -c` with a binary built from the working tree by the check: `alone` one murex process per case (its exit status is the observation), the other forms of a worker batched into one murex process and judged on stdout (quick: codes 0 1 2 127 128 255 and signals 1 2 3 6 9 11 13 15; thorough: everything)}; oracle from the statement: normal exit => exit number == code; signal death => exit number != 0; `&&` continues / `||` alternative / rest of try block run exactly according to failed = (code != 0 or signal); non-trivial = helper does not exit 0 (a status has to be propagated)",
 		Run:    run,
 		Replay: replay,
 		Assumptions: []string{
@@ -235,6 +235,9 @@ func run(c *vlib.Ctx) {
 	for _, h := range helpers() {
 		for l := 0; l < nl; l++ {
 			for _, seam := range []string{"inproc", "binary"} {
+				if seam == "binary" && l > 0 {
+					continue // the launcher only changes how murex finds the program: in-process seam only
+				}
 				if seam == "binary" && c.Quick() && (h.signal == 0 && !binarySubset[h.code] || h.signal != 0 && !binarySignals[h.signal]) {
 					continue
 				}
